@@ -407,9 +407,26 @@ ENV = {"ASAN_OPTIONS": "detect_leaks=1:allocator_may_return_null=1:detect_stack_
 REPORT_RX = re.compile(r"(ERROR: (?:AddressSanitizer|LeakSanitizer)[^\n]*|[^\n]*runtime error:[^\n]*|terminate called[^\n]*|what\(\)[^\n]*)")
 
 
-def run_proc(exe, lines, timeout, limit_as=None, limit_stack=None):
-    """returns (results {id: fields}, status, last_begun, stderr_tail)   status: 'ok' | 'timeout' | 'exit:<rc>'"""
+# Hang detection is by CPU time, never by wall-clock time (the machine may be heavily loaded).
+# Measured once on an idle machine (ASan+UBSan build, one case per process, user+system seconds):
+#   slowest known-good quick-tier case     1.1 s   (ladder:literal-elements:1000)
+#   slowest known-good thorough-tier case 24.9 s   (ladder:literal-elements:5000; predicates:5000 20.3 s)
+#   a batch of 40 ordinary cases           < 6 s
+SLOWEST_GOOD_CPU = {"quick": 1.1, "thorough": 24.9}
+CPU_FACTOR = 20
+BATCH_CPU = 300            # CPU seconds for one batch process (>= 50 x the measured batch cost)
+WALL_BACKSTOP = 900        # seconds; expiry is "not judged", never a violation
+
+
+def single_cpu_limit(thorough):
+    return int(max(60, CPU_FACTOR * SLOWEST_GOOD_CPU["thorough" if thorough else "quick"] + 100))
+
+
+def run_proc(exe, lines, cpu, limit_as=None, limit_stack=None, wall=WALL_BACKSTOP):
+    """returns (results {id: fields}, status, last_begun, stderr)
+       status: 'ok' | 'cpu-limit' (RLIMIT_CPU hit) | 'wall-backstop' (not judged) | 'exit:<rc>'"""
     def pre():
+        resource.setrlimit(resource.RLIMIT_CPU, (int(cpu), int(cpu) + 5))
         if limit_as:
             resource.setrlimit(resource.RLIMIT_AS, (limit_as, limit_as))
         if limit_stack:
@@ -418,12 +435,17 @@ def run_proc(exe, lines, timeout, limit_as=None, limit_stack=None):
     env.update(ENV)
     p = subprocess.Popen([exe], stdin=subprocess.PIPE, stdout=subprocess.PIPE, stderr=subprocess.PIPE, env=env, preexec_fn=pre)
     try:
-        out, err = p.communicate(("\n".join(lines) + "\n").encode(), timeout=timeout)
-        status = "ok" if p.returncode == 0 else "exit:%d" % p.returncode
+        out, err = p.communicate(("\n".join(lines) + "\n").encode(), timeout=wall)
+        if p.returncode == 0:
+            status = "ok"
+        elif p.returncode in (-24, -9) and b"Sanitizer" not in err and b"runtime error" not in err:
+            status = "cpu-limit"      # SIGXCPU at the soft limit (SIGKILL at the hard one)
+        else:
+            status = "exit:%d" % p.returncode
     except subprocess.TimeoutExpired:
         p.kill()
         out, err = p.communicate()
-        status = "timeout"
+        status = "wall-backstop"
     res, last = {}, None
     for l in out.decode("utf-8", "replace").split("\n"):
         if l.startswith("#begin "):
@@ -442,53 +464,89 @@ def report_of(err):
 
 
 class Runner:
-    def __init__(self, ctx, exe, per_case_timeout):
-        self.ctx, self.exe, self.tmo = ctx, exe, per_case_timeout
+    def __init__(self, ctx, exe, plain_exe):
+        self.ctx, self.exe, self.plain = ctx, exe, plain_exe
+        self.single_cpu = single_cpu_limit(ctx.thorough)
         self.events = []      # (kind, case, detail, replay_lines)
+        self.not_judged = []
 
     def batch(self, cases):
-        """run the cases in one process; on a crash / hang isolate the case and continue after it"""
+        """run the cases in one process; on a crash / CPU-limit hit isolate the case and continue after it"""
         results = {}
         todo = list(cases)
         while todo:
             lines = [c.line() for c in todo]
-            res, status, last, err = run_proc(self.exe, lines, 60 + self.tmo * len(todo))
+            cpu = BATCH_CPU if len(todo) > 1 else self.single_cpu
+            res, status, last, err = run_proc(self.exe, lines, cpu)
             results.update(res)
             if status == "ok":
                 break
-            done = [c for c in todo if c.id in res]
             pending = [c for c in todo if c.id not in res]
             if not pending:
+                if status == "wall-backstop":
+                    self.not_judged.append("wall-clock backstop under load after all cases of a batch answered")
+                    break
                 # every case answered, the process still failed: leak report or failure at exit
                 self.events.append(("exit", None, "%s after all cases answered: %s" % (status, report_of(err)), lines))
                 self.isolate_exit(todo)
                 break
             culprit = pending[0]
             idx = todo.index(culprit)
-            kind = "hang" if status == "timeout" else ("memory-exhaustion" if "hard rss limit" in err else "crash")
-            r1, s1, _, e1 = run_proc(self.exe, [culprit.line()], 90 + 4 * self.tmo)
-            if s1 != "ok" and culprit.id not in r1:
-                self.events.append((kind if s1 != "timeout" else "hang", culprit, (s1 + " " + report_of(e1 or err)).strip(), [culprit.line()]))
-            else:
-                # depends on the history in the same process: shrink the prefix, keeping the culprit last
-                prefix = todo[:idx]
-
-                def fails(pre):
-                    rr, ss, _, _ = run_proc(self.exe, [c.line() for c in pre] + [culprit.line()], 60 + self.tmo * (len(pre) + 1))
-                    return ss != "ok" and culprit.id not in rr
-                if fails(prefix):
-                    small = core.shrink_list(prefix, fails, max_steps=40)
-                    self.events.append((kind + "-with-history", culprit, status + " " + report_of(err), [c.line() for c in small] + [culprit.line()]))
-                else:
-                    self.events.append((kind + "-not-reproduced", culprit, status + " " + report_of(err), lines[:idx + 1]))
+            if status == "wall-backstop":
+                self.not_judged.append("not judged: wall-clock backstop under load (%s, %d cases of the batch re-queued singly)" % (culprit.cls, len(pending)))
+                for c in pending:      # run them one per process; still only the CPU limit judges
+                    r1, s1, _, e1 = run_proc(self.exe, [c.line()], self.single_cpu)
                     results.update(r1)
+                    if s1 == "wall-backstop":
+                        self.not_judged.append("not judged: wall-clock backstop under load (%s, alone)" % c.cls)
+                    elif s1 != "ok" and c.id not in r1:
+                        self.judge_single(c, s1, e1)
+                break
+            # isolated re-run: only what the single case does alone counts
+            r1, s1, _, e1 = run_proc(self.exe, [culprit.line()], self.single_cpu)
+            if s1 == "wall-backstop":
+                self.not_judged.append("not judged: wall-clock backstop under load (%s, alone)" % culprit.cls)
+            elif s1 != "ok" and culprit.id not in r1:
+                self.judge_single(culprit, s1, e1)
+            else:
+                results.update(r1)
+                kind = "hang" if status == "cpu-limit" else ("memory-exhaustion" if "hard rss limit" in err else "crash")
+                if status == "cpu-limit":
+                    # the batch used up its CPU budget but the case is fine alone: not a hang of this input
+                    self.events.append((kind + "-not-reproduced", culprit, status + " in the batch, fine alone", lines[:idx + 1]))
+                else:
+                    # depends on the history in the same process: shrink the prefix, keeping the culprit last
+                    prefix = todo[:idx]
+
+                    def fails(pre):
+                        rr, ss, _, _ = run_proc(self.exe, [c.line() for c in pre] + [culprit.line()], BATCH_CPU)
+                        return ss not in ("ok", "wall-backstop", "cpu-limit") and culprit.id not in rr
+                    if fails(prefix):
+                        small = core.shrink_list(prefix, fails, max_steps=40)
+                        self.events.append((kind + "-with-history", culprit, status + " " + report_of(err), [c.line() for c in small] + [culprit.line()]))
+                    else:
+                        self.events.append((kind + "-not-reproduced", culprit, status + " " + report_of(err), lines[:idx + 1]))
             todo = todo[idx + 1:]
         return results
 
+    def judge_single(self, c, s1, e1):
+        """the case failed alone under the ASan build with status s1"""
+        if s1 == "cpu-limit":
+            # a hang is reported only when the plain build, alone, also runs into the CPU limit
+            r2, s2, _, e2 = run_proc(self.plain, [c.line()], self.single_cpu)
+            if s2 == "cpu-limit":
+                self.events.append(("hang", c, "alone, the case exceeds %d s of CPU time in the ASan build and in the plain build "
+                                    "(slowest known-good case: %.1f s)" % (self.single_cpu, SLOWEST_GOOD_CPU["thorough" if self.ctx.thorough else "quick"]), [c.line()]))
+            else:
+                self.not_judged.append("not judged: %s exceeds the CPU limit under ASan only (plain build: %s)" % (c.cls, s2))
+            return
+        kind = "memory-exhaustion" if "hard rss limit" in e1 else "crash"
+        self.events.append((kind, c, (s1 + " " + report_of(e1)).strip(), [c.line()]))
+
     def isolate_exit(self, cases):
         for c in cases:
-            r, s, _, e = run_proc(self.exe, [c.line()], 20 + 4 * self.tmo)
-            if s != "ok":
+            r, s, _, e = run_proc(self.exe, [c.line()], self.single_cpu)
+            if s not in ("ok", "wall-backstop", "cpu-limit"):
                 self.events.append(("exit-single", c, s + " " + report_of(e), [c.line()]))
                 return
 
@@ -612,7 +670,7 @@ def build_cases(ctx, scale):
     else:
         edge = [-330, -324, -323, -308, -64, -63, -36, -35, -19, -1, 0, 1, 9, 10, 15, 16, 17, 18, 19, 20, 21, 22, 23, 38, 63, 88, 89, 90, 99, 100, 101, 199, 200, 307, 308, 309]
         exps = edge + r.sample(allexp, 60 * scale)
-        depths, fn_depths = [10, 100, 1000, 5000], [10, 100, 1000]
+        depths, fn_depths = [10, 100, 1000], [10, 100, 1000]      # 5000 only in the thorough tier (25 s of CPU under ASan)
     cases = []
     cases += gen_numbers(ctx, exps)
     cases += gen_ladders(ctx, depths, fn_depths)
@@ -630,20 +688,22 @@ def build_cases(ctx, scale):
     return cases
 
 
-def run_cases(ctx, exe, cases, batch_size, per_case_timeout):
+def run_cases(ctx, exe, plain, cases, batch_size):
     heavy = [c for c in cases if c.cls.startswith("ladder:")]
     light = [c for c in cases if not c.cls.startswith("ladder:")]
     batches = [light[i:i + batch_size] for i in range(0, len(light), batch_size)] + [[c] for c in heavy]
-    runner = Runner(ctx, exe, per_case_timeout)
+    runner = Runner(ctx, exe, plain)
     results = {}
     with ThreadPoolExecutor(core.NPROC) as ex:
         for res in ex.map(runner.batch, batches):
             results.update(res)
+    if runner.not_judged:
+        ctx.notes.setdefault("not_judged", []).extend(runner.not_judged)
     return results, runner.events
 
 
-def evaluate(ctx, exe, cases, batch_size=40, per_case_timeout=4):
-    results, events = run_cases(ctx, exe, cases, batch_size, per_case_timeout)
+def evaluate(ctx, exe, plain, cases, batch_size=40):
+    results, events = run_cases(ctx, exe, plain, cases, batch_size)
     failures = []     # (kind, case or None, text, replay lines, known key or None)
     for kind, c, detail, replay in events:
         if kind.endswith("-not-reproduced"):
@@ -737,14 +797,14 @@ def run(ctx):
     scale = 1
     cases = build_cases(ctx, scale)
     ctx.cov["samples"] = [("%s %s" % (c.cls, (c.X or c.S)[:100])) for c in cases[:3] + cases[len(cases) // 2: len(cases) // 2 + 3] + cases[-3:]]
-    failures, hist = evaluate(ctx, asan, cases)
+    failures, hist = evaluate(ctx, asan, plain, cases)
     new = [f for f in failures if not (f[4] and f[4] in known)]
     if (not proved or ctx.broken) and not new and not ctx.thorough:
         ctx.escalated = True
         more = build_cases(ctx, 3)
         for i, c in enumerate(more):
             c.id = "w%d" % i
-        f2, h2 = evaluate(ctx, asan, more)
+        f2, h2 = evaluate(ctx, asan, plain, more)
         failures += f2
         for k, v in h2.items():
             hist[k] = hist.get(k, 0) + v
